@@ -61,6 +61,11 @@ pub fn gen_history(rng: &mut Rng, max_symbols: u64, with_removal: bool) -> Sende
             ops.push(TimedOp { when: When::AtUs(2_000_000), op: Op::Remove(i) });
         }
     }
+    // set_complete(): only add_object is refused afterwards, everything queued goes on as before
+    if rng.chance(0.08) {
+        let when = if rng.chance(0.5) { When::AtUs(0) } else { When::AfterPkt(rng.range(1, 60)) };
+        ops.push(TimedOp { when, op: Op::SetComplete });
+    }
     ops.push(TimedOp { when: When::AtUs(2_500_000), op: Op::CloseSession });
     let poll = PollSpec {
         start_us: 0,
